@@ -323,7 +323,7 @@ class ClsInterp:
         if o == 'frombad':
             neg = t.get('neg', False)
             cls = CL.AnyButFrom if neg else CL.AnyFrom
-            vals = {'str2': ['a', 'bc'], 'empty': ['a', ''], 'int': ['a', 5], 'none': [None], 'noargs': [], 'list': [['a']],
+            vals = {'bs2': ['\\a'], 'bs2b': ['a', '\\-'], 'bs3': ['\\\\a'], 'str2': ['a', 'bc'], 'empty': ['a', ''], 'int': ['a', 5], 'none': [None], 'noargs': [], 'list': [['a']],
                     'pre2': ['a', Pregex('ab')], 'bytes': [b'a'], 'float': [1.5]}[t['v']]
             exc = S.T_ARGS if t['v'] == 'noargs' else S.T_TYPE
 
@@ -343,7 +343,7 @@ class ClsInterp:
         if o == 'btwbad':
             neg = t.get('neg', False)
             cls = CL.AnyButBetween if neg else CL.AnyBetween
-            a, b = {'str2': ('ab', 'z'), 'int': (1, 9), 'none': (None, 'z'), 'empty': ('', 'z'), 'pre2': ('a', Pregex('xy')),
+            a, b = {'bs2': ('\\a', 'z'), 'bs2b': ('!', '\\z'), 'str2': ('ab', 'z'), 'int': (1, 9), 'none': (None, 'z'), 'empty': ('', 'z'), 'pre2': ('a', Pregex('xy')),
                     'list': (['a'], 'z'), 'float': ('a', 2.5)}[t['v']]
 
             def model():
@@ -434,10 +434,10 @@ def w6(tier, seed):
         for b in ['a', '~', '\x00', {'t': 'Dollar'}, {'t': 'Backslash'}, {'t': 'Yen'}]:
             out.append({'o': 'btw', 'a': {'t': a}, 'b': b})
             out.append({'o': 'btw', 'a': b, 'b': {'t': a}, 'neg': True})
-    for v in ('str2', 'empty', 'int', 'none', 'noargs', 'list', 'pre2', 'bytes', 'float'):
+    for v in ('bs2', 'bs2b', 'bs3', 'str2', 'empty', 'int', 'none', 'noargs', 'list', 'pre2', 'bytes', 'float'):
         out.append({'o': 'frombad', 'v': v})
         out.append({'o': 'frombad', 'v': v, 'neg': True})
-    for v in ('str2', 'int', 'none', 'empty', 'pre2', 'list', 'float'):
+    for v in ('bs2', 'bs2b', 'str2', 'int', 'none', 'empty', 'pre2', 'list', 'float'):
         out.append({'o': 'btwbad', 'v': v})
         out.append({'o': 'btwbad', 'v': v, 'neg': True})
     # sampled 3/4/6-subsets, token instances mixed in
